@@ -9,6 +9,7 @@ import (
 	"fmt"
 	"io"
 	"log/slog"
+	"net"
 	"net/http"
 	"os"
 	"sync"
@@ -207,6 +208,21 @@ type Stack struct {
 	hcClient  *http.Client
 	mdClient  *http.Client
 	Log       logger.StyledLogger
+	connMu    sync.Mutex
+	connState map[net.Conn]http.ConnState
+}
+
+// ActiveServerConns counts client connections on which a request is being handled.
+func (st *Stack) ActiveServerConns() int {
+	st.connMu.Lock()
+	defer st.connMu.Unlock()
+	n := 0
+	for _, s := range st.connState {
+		if s == http.StateActive {
+			n++
+		}
+	}
+	return n
 }
 
 func quietLogger() logger.StyledLogger {
@@ -392,6 +408,16 @@ func BuildStack(s *Sim, p *Plan) (*Stack, error) {
 	mux := http.NewServeMux()
 	st.App.GetRouteRegistry().WireUpWithSecurityChain(mux, st.App.GetSecurityAdapters())
 	st.Srv = &http.Server{Handler: mux, ReadTimeout: cfg.Server.ReadTimeout, WriteTimeout: cfg.Server.WriteTimeout, IdleTimeout: cfg.Server.IdleTimeout}
+	st.connState = map[net.Conn]http.ConnState{}
+	st.Srv.ConnState = func(c net.Conn, cs http.ConnState) {
+		st.connMu.Lock()
+		if cs == http.StateClosed || cs == http.StateHijacked {
+			delete(st.connState, c)
+		} else {
+			st.connState[c] = cs
+		}
+		st.connMu.Unlock()
+	}
 	st.Ln = s.Listen(OllaAddr)
 	go func() { _ = st.Srv.Serve(st.Ln) }()
 	return st, nil
